@@ -2,6 +2,7 @@
 The five solvers as instances of the generic loop.  Executable at `Rat`; core Lean only.
 -/
 import MdpaxV.Model.Backup
+import MdpaxV.Model.SemiAsync
 import MdpaxV.Model.Loop
 namespace MdpaxV
 
@@ -43,6 +44,10 @@ def viStep (P : Problem α) (c : BatchCfg) (γ thr : α) (t : ConvTest) (s : SSt
   let conv := convMeasure t new s.values
   ({ s with values := new, iter := s.iter + 1 }, decide (conv < thr))
 
+/-- the convergence measure of the next iteration (diagnostics for decision margins; not used by `viStep`) -/
+def viMeasure (P : Problem α) (c : BatchCfg) (γ : α) (t : ConvTest) (s : SState α) : α :=
+  convMeasure t (sweep P c γ s.values 0) s.values
+
 /-- policy extraction after the loop -/
 def viFinish (P : Problem α) (c : BatchCfg) (γ : α) (_conv : Bool) (s : SState α) : SState α :=
   { s with policy := some (policy P c γ s.values 0) }
@@ -59,6 +64,9 @@ def rviStep (P : Problem α) (c : BatchCfg) (γ ε : α) (s : SState α) : SStat
   let new := w.map (· - s.gain)
   let conv := spanOf new s.values
   ({ s with values := new, iter := s.iter + 1, gain := (new.getLast?).getD 0 }, decide (conv < ε))
+
+def rviMeasure (P : Problem α) (c : BatchCfg) (γ : α) (s : SState α) : α :=
+  spanOf ((sweep P c γ s.values 0).map (· - s.gain)) s.values
 
 def rviSolve (P : Problem α) (c : BatchCfg) (γ ε : α) (f k : Nat) (s : SState α) : Run (SState α) :=
   solveCall (rviStep P c γ ε) (·.iter) (viFinish P c γ) f k s
@@ -108,6 +116,11 @@ def periodicStep (P : Problem α) (c : BatchCfg) (γ ε : α) (period : Nat) (s 
     | some m => decide (m < ε)
   ({ s with values := new, iter := it, hist := some hist, hidx := hi }, done)
 
+def periodicMeasureNext (P : Problem α) (c : BatchCfg) (γ : α) (period : Nat) (s : SState α) : Option α :=
+  let new := sweep P c γ s.values 0
+  let hi := (s.hidx + 1) % (period + 1)
+  periodicMeasure ((s.hist.getD []).set hi new) hi period (s.iter + 1) γ new P.nS
+
 def periodicFinish (P : Problem α) (c : BatchCfg) (γ : α) (clear : Bool) (conv : Bool) (s : SState α) : SState α :=
   let s' := viFinish P c γ conv s
   if conv && clear then { s' with hist := none } else s'
@@ -115,6 +128,24 @@ def periodicFinish (P : Problem α) (c : BatchCfg) (γ : α) (clear : Bool) (con
 def periodicSolve (P : Problem α) (c : BatchCfg) (γ ε : α) (period : Nat) (clear : Bool) (f k : Nat) (s : SState α) :
     Run (SState α) :=
   solveCall (periodicStep P c γ ε period) (·.iter) (periodicFinish P c γ clear) f k s
+
+/-! ### Semi-asynchronous value iteration -/
+
+/-- `SemiAsyncValueIteration._iteration_step` (+ loop assignments).  `perms k` is the permutation drawn for
+    the sweep that produces iteration `k` (`none` = fixed order); padding collisions resolved by `choose`. -/
+def semiStep (P : Problem α) (c : BatchCfg) (γ thr : α) (t : ConvTest) (perms : Nat → Option (List Nat))
+    (choose : Nat → Bool) (s : SState α) : SState α × Bool :=
+  let new := semiSweep P c γ s.values (perms (s.iter + 1)) choose 0
+  let conv := convMeasure t new s.values
+  ({ s with values := new, iter := s.iter + 1 }, decide (conv < thr))
+
+def semiMeasure (P : Problem α) (c : BatchCfg) (γ : α) (t : ConvTest) (perms : Nat → Option (List Nat))
+    (choose : Nat → Bool) (s : SState α) : α :=
+  convMeasure t (semiSweep P c γ s.values (perms (s.iter + 1)) choose 0) s.values
+
+def semiSolve (P : Problem α) (c : BatchCfg) (γ thr : α) (t : ConvTest) (perms : Nat → Option (List Nat))
+    (choose : Nat → Bool) (f k : Nat) (s : SState α) : Run (SState α) :=
+  solveCall (semiStep P c γ thr t perms choose) (·.iter) (viFinish P c γ) f k s
 
 /-! ### Policy iteration -/
 
